@@ -4,6 +4,7 @@ import JunoModel.C19.ModelUnits
 import JunoModel.C19.ModelProc
 import JunoModel.C19.ModelHash
 import JunoModel.C19.ModelCache
+import JunoModel.C19.ModelR5
 /-!
 Line-protocol driver for the C19 model (`lake build c19drv`). Core Lean only.
 
@@ -59,6 +60,13 @@ Requests (answers):
   tcadd <now> <key>                  -> <start> <end> <size> <len(values)> <grow -|c|w>   TimeCache.Add at clock value <now>
                                         (grow: regrowth did not run / its contiguous branch / its wrapped branch)
   tcget <now> <key>                  -> <true|false> <start> <end> <size> <len(values)>   TimeCache.Get
+  bsearch <x,x,…> <target>           -> <pos> <found 0|1>        slices.BinarySearchFunc(x, target, cmp.Compare) (x as given: NOT sorted here)
+  speerforgo <publisher> <index>     -> ok <peer> | err:<class>   PeerForShardIndex written with the binary search (session scheduler)
+  sshardforgo <publisher>            -> ok <index> | err:<class>  ShardIndexForPublisher written with the binary search
+  bitslen <n>                        -> <n>                      bits.Len(uint(n))
+  npow2go <n>                        -> <n>                      nextPowerOfTwo as computed: 1 << bits.Len(n-1)
+  pdepth <n>                         -> <n>                      length of every proof of merkle.New over n ≥ 1 leaves
+a `noroute` answer of pstep carries the reason: `noroute:<self-published|publisher-unknown|no-key|publisher-tasks|max-tasks|?>`
 <pcfg> is four characters 0/1: wireGuard noPoison localFromPresent keyGuard.
 <sigok> of pstep is two characters: signature verifies, publisher id embeds a key.
 <cfg> is five characters 0/1: unpadGuard rootFromPresent shardingLeafProto validatorLeafProto nonceSet.
@@ -244,8 +252,13 @@ def needsCodec (s : St) (sc : Sched) (sigok hasKey : Bool) (u : PUnit HTerm) (se
 def runPStep (s : St) (sc : Sched) (sigok hasKey : Bool) (u : PUnit HTerm) (sender : Bytes)
     (rec : Option (List Bytes)) : St × String :=
   let (p', out) := tprocStep s.bounds s.cfg s.pcfg termFns (rsOracle [] rec) (sigOracle sigok hasKey) sc s.proc u sender
+  -- the reason of a refusal, from `refusalOf` (createSubprocessor's checks in the code's order)
+  let why := match out with
+    | .noRoute => ":" ++ (match refusalOf s.bounds s.pcfg (sigOracle sigok hasKey) sc s.proc u with
+        | some r => r.name | none => "?")
+    | _ => ""
   ({ s with proc := p', pending := none },
-    procOutStr out ++ " | " ++ toString p'.tasks ++ " " ++ toString (p'.ptasks (keyOf u).publisher))
+    procOutStr out ++ why ++ " | " ++ toString p'.tasks ++ " " ++ toString (p'.ptasks (keyOf u).publisher))
 
 def wireErr : WireErr → String
   | .noShards => "no-shards" | .shardLen => "shard-len" | .rootLen => "root-len"
@@ -322,6 +335,36 @@ def step (s : St) (line : String) : St × String :=
       let (t, ans) := s.tc.get now key
       ({ s with tc := t }, s!"{ans} {t.start} {t.stop} {t.size} {t.values.length}")
     | _, _ => (s, "bad-op")
+  | ["bsearch", xs, t] =>
+    match hexList? xs, hexToBytes? t with
+    | some xs, some t => let (i, found) := binSearch xs t; (s, toString i ++ " " ++ (if found then "1" else "0"))
+    | _, _ => (s, "bad-op")
+  | ["speerforgo", publisher, idx] =>
+    match s.sched, hexToBytes? publisher, idx.toNat? with
+    | some sc, some publisher, some idx =>
+      match sc.peerForShardGo publisher idx with
+      | .ok q => (s, "ok " ++ bytesToHex q)
+      | .error e => (s, "err:" ++ e.name)
+    | _, _, _ => (s, "bad-op")
+  | ["sshardforgo", publisher] =>
+    match s.sched, hexToBytes? publisher with
+    | some sc, some publisher =>
+      match sc.shardIndexForGo publisher with
+      | .ok i => (s, s!"ok {i}")
+      | .error e => (s, "err:" ++ e.name)
+    | _, _ => (s, "bad-op")
+  | ["bitslen", n] =>
+    match n.toNat? with
+    | some n => (s, toString (bitsLen n))
+    | none => (s, "bad-op")
+  | ["npow2go", n] =>
+    match n.toNat? with
+    | some n => (s, toString (nextPow2Go n))
+    | none => (s, "bad-op")
+  | ["pdepth", n] =>
+    match n.toNat? with
+    | some n => (s, toString (proofDepthGo n))
+    | none => (s, "bad-op")
   | ["npow2", n] =>
     match n.toNat? with
     | some n => (s, toString (nextPow2 n))
